@@ -590,8 +590,13 @@ func c16PositionTypes(k intKind) []reflect.Type {
 	types := []reflect.Type{reflect.StructOf(all)}
 	for _, v := range variants {
 		f := reflect.StructField{Name: v.name, Type: v.t, Tag: reflect.StructTag(v.tag)}
+		ign := reflect.StructField{Name: "Ign", Type: reflect.TypeOf([3]int16{}), Tag: `json:"-"`}
 		types = append(types, reflect.StructOf([]reflect.StructField{f}),
-			reflect.StructOf([]reflect.StructField{f, {Name: "X", Type: k.t, Tag: `json:"x"`}}))
+			reflect.StructOf([]reflect.StructField{f, {Name: "X", Type: k.t, Tag: `json:"x"`}}),
+			// the first encoded member is not at offset 0 (an ignored member precedes it), and a member in last position
+			reflect.StructOf([]reflect.StructField{ign, f, {Name: "X", Type: k.t, Tag: `json:"x"`}}),
+			reflect.StructOf([]reflect.StructField{ign, f}),
+			reflect.StructOf([]reflect.StructField{{Name: "X", Type: k.t, Tag: `json:"x"`}, f}))
 	}
 	return types
 }
@@ -604,18 +609,29 @@ func c16Positions(c *rt.Ctx, sub int, k intKind, vals []*big.Int) {
 	for _, b := range vals {
 		for ti, t := range types {
 			for _, nilPtrs := range []bool{false, true} {
-				if nilPtrs && ti > 0 && t.Field(0).Type.Kind() != reflect.Ptr {
-					continue
+				if nilPtrs && ti > 0 {
+					hasPtr := false
+					for i := 0; i < t.NumField(); i++ {
+						hasPtr = hasPtr || t.Field(i).Type.Kind() == reflect.Ptr
+					}
+					if !hasPtr {
+						continue
+					}
 				}
 				x := reflect.New(t).Elem()
 				for i := 0; i < t.NumField(); i++ {
 					f := x.Field(i)
-					if f.Kind() == reflect.Ptr {
+					switch {
+					case f.Kind() == reflect.Array:
+						for j := 0; j < f.Len(); j++ {
+							f.Index(j).SetInt(int64(30600 + j))
+						}
+					case f.Kind() == reflect.Ptr:
 						if !nilPtrs {
 							f.Set(reflect.New(k.t))
 							setBig(f.Elem(), b)
 						}
-					} else {
+					default:
 						setBig(f, b)
 					}
 				}
@@ -682,7 +698,15 @@ func c16Positions(c *rt.Ctx, sub int, k intKind, vals []*big.Int) {
 					var derr error
 					pan, msg, _ = rt.Guard(func() { derr = gojson.Unmarshal(want, back.Interface()) })
 					c.Eval(1)
-					if pan || derr != nil || !reflect.DeepEqual(back.Elem().Interface(), x.Interface()) {
+					// (the ignored member is not part of the document: it is left out of the comparison)
+					exp := reflect.New(t).Elem()
+					exp.Set(x)
+					for i := 0; i < t.NumField(); i++ {
+						if exp.Field(i).Kind() == reflect.Array {
+							exp.Field(i).Set(reflect.Zero(exp.Field(i).Type()))
+						}
+					}
+					if pan || derr != nil || !reflect.DeepEqual(back.Elem().Interface(), exp.Interface()) {
 						gb, _ := stdjson.Marshal(back.Elem().Interface())
 						c.Violate(rt.Violation{Monitor: "int-decode", Entry: "Unmarshal", Kind: "member-wrong-value", Ctx: k.name + ":members:" + magClass(b, k),
 							Detail: fmt.Sprintf("%s into %s: got %s (err %v panic %v %s)", want, t, gb, derr, pan, msg), Input: b.String(), Sub: sub})
